@@ -289,3 +289,10 @@ func Zero[T any](p *T) {
 	var z T
 	*p = z
 }
+
+// Snapshot captures the current (initial) value of a package-level variable
+// and returns a function restoring it (shallow copy; generated reset hooks).
+func Snapshot[T any](p *T) func() {
+	v := *p
+	return func() { *p = v }
+}
